@@ -53,24 +53,26 @@ Definition shrink (s s' : st) : Prop :=
   nxt s' = nxt s /\ tagof s' = tagof s /\ (forall e, alive s' e = true -> alive s e = true) /\
   (forall h, hptr s' h = hptr s h \/ hptr s' h = None) /\
   vars s' = vars s /\ odev s' = odev s /\ ginner s' = ginner s /\ ocur s' = ocur s /\ ouse s' = ouse s /\
-  dus s' = dus s /\ moff s' = moff s /\ pslots s' = pslots s /\ oinner s' = oinner s.
+  dus s' = dus s /\ moff s' = moff s /\ pslots s' = pslots s /\ oinner s' = oinner s /\
+  (forall m, obuf s' m = obuf s m \/ obuf s' m = None).
 
 Lemma shrink_refl s : shrink s s.
 Proof. unfold shrink. repeat split; auto. Qed.
 
 Lemma shrink_trans a b c : shrink a b -> shrink b c -> shrink a c.
 Proof.
-  intros (A1 & A2 & A3 & A4 & A5 & A6 & A7 & A8 & A9 & A10 & A11 & A12 & A13)
-         (B1 & B2 & B3 & B4 & B5 & B6 & B7 & B8 & B9 & B10 & B11 & B12 & B13).
+  intros (A1 & A2 & A3 & A4 & A5 & A6 & A7 & A8 & A9 & A10 & A11 & A12 & A13 & A14)
+         (B1 & B2 & B3 & B4 & B5 & B6 & B7 & B8 & B9 & B10 & B11 & B12 & B13 & B14).
   unfold shrink. repeat split; try congruence.
   - auto.
   - intros h. destruct (B4 h) as [-> | ->]; [apply A4|now right].
+  - intros m. destruct (B14 m) as [-> | ->]; [apply A14|now right].
 Qed.
 
 Lemma same_obj_shrink s s' : same_obj s s' -> shrink s s'.
 Proof.
   intros (H1 & H2 & H3 & H4 & H5 & H6 & H7 & H8 & H9 & H10 & H11 & H12 & H13 & H14 & H15 & H16 & H17 & H18).
-  unfold shrink. rewrite H1, H2, H3, H4, H5, H6, H8, H9, H13, H14, H15, H16, H18. repeat split; auto.
+  unfold shrink. rewrite H1, H2, H3, H4, H5, H6, H7, H8, H9, H13, H14, H15, H16, H18. repeat split; auto.
 Qed.
 
 (* the fuel measure: alive cells + wrappers that still point somewhere *)
